@@ -458,6 +458,64 @@ func runC19(r *vk.Run) {
 				}
 			}
 			c.Count("law:or", 1)
+			if c.Idx%4 == 2 {
+				// a chain of three or four equalities on ONE label, written in no particular order: the union of
+				// what each selects alone, whatever the order they are written in
+				vals := map[string]map[string]bool{}
+				for _, e := range base {
+					for k, v := range e.Labels {
+						if vals[k] == nil {
+							vals[k] = map[string]bool{}
+						}
+						vals[k][v] = true
+					}
+				}
+				names := map[string]bool{}
+				for k := range vals {
+					names[k] = true
+				}
+				for _, l := range sortedKeys(names) {
+					if len(vals[l]) < 3 || !validLabelName(l) || l == "msg" {
+						continue
+					}
+					vs := sortedKeys(vals[l])
+					for i := len(vs) - 1; i > 0; i-- {
+						j := rng.Intn(i + 1)
+						vs[i], vs[j] = vs[j], vs[i]
+					}
+					if len(vs) > 4 {
+						vs = vs[:4]
+					}
+					var parts []string
+					want := map[int64]bool{}
+					for _, v := range vs {
+						parts = append(parts, l+"="+quoteLogQL(v))
+						for ts, e := range base {
+							if e.Labels[l] == v {
+								want[ts] = true
+							}
+						}
+					}
+					chain := strings.Join(parts, " or ")
+					rc, err := c19Eval(c, ds, n, qt+" | "+chain)
+					if err != nil {
+						c.Fail("", "or-chain failed: "+qt+" | "+chain+": "+err.Error(), det(nil))
+						return
+					}
+					for ts := range want {
+						if _, ok := rc[ts]; !ok {
+							c.Fail("", fmt.Sprintf("`%s` misses ts=%d, which carries one of the values", chain, ts), det(map[string]any{"chain": chain, "selected": keysOf(rc)}))
+							return
+						}
+					}
+					if len(rc) != len(want) {
+						c.Fail("", fmt.Sprintf("`%s` selects %d records, %d carry one of the values", chain, len(rc), len(want)), det(map[string]any{"chain": chain, "selected": keysOf(rc)}))
+						return
+					}
+					c.Count("law:or_chain_on_one_label", 1)
+					break
+				}
+			}
 			// `a or b and c` (no parentheses) = a ∪ (b ∩ c): the one mixed form whose grouping is the
 			// same under every reading and is pinned by the suite
 			h := genStatelessFilter(rng, ds)
@@ -644,6 +702,7 @@ func runC19(r *vk.Run) {
 	r.Require("law:commute", 1500)
 	r.Require("law:and", 300)
 	r.Require("law:or", 100)
+	r.Require("law:or_chain_on_one_label", 50)
 	r.Require("law:nested", 100)
 	r.Require("distinct_nontrivial", 200)
 }
